@@ -67,18 +67,23 @@ def run(rep, tier):
     inc = [e for e in stores if e["target"] == "nframes_"]
     rep.check(len(inc) == 1 and is_zero(inc[0]["value"] - (n + 1)), "R4.1", "frame-count", "nframes_ incremented once per merged frame",
               "MergeWorker updates nframes_ as %s" % [str(e["value"]) for e in inc], fm.loc())
-    means = 0
+    from vsa.matfold import MatFold, nc_is_zero
+    from vsa.cases import executes, decide
+    fmm = MatFold(fm, inline="internal").run()
+    mstores = [e for e in fmm.events if e["kind"] == "store" and not isinstance(e["value"], (tuple, sp.Matrix))]
+    nn = n + 1                                     # the frame count after its increment
     for fld, cur in (("average_", "current_hists_"), ("average_force_", "current_hists_force_")):
-        st = [e for e in stores if re.search(r"->%s\.data\(\)\.y\(\)$" % fld, e["target"])]
+        st = [e for e in mstores if re.search(r"->%s\.data\(\)\.y\(\)$" % fld, e["target"].replace(" ", ""))]
         ok, got = False, "no store found"
         if len(st) == 1:
             v = st[0]["value"]
+            v = fmm.devec(fmm.vecsym(v) if hasattr(v, "e") else v)
             got = str(v)
-            avg = [a for a in v.atoms(sp.Function) if re.match(r"^y\(data\(.*->%s\)\)$" % fld, str(a))]
-            curv = [a for a in v.atoms(sp.Function) if re.match(r"^y\(data\(at\(worker->%s, .*index_\)\)\)$" % cur, str(a))]
-            if len(avg) == 1 and len(curv) == 1:
-                ok = is_zero(v - (n * avg[0] + curv[0]) / (n + 1))
-                means += 1
+            ncs = [a_ for a_ in sp.preorder_traversal(v) if str(getattr(a_, "func", "")) == "y" and getattr(a_, "is_commutative", True) is False]
+            avg = [a_ for a_ in ncs if re.search(r"->%s\)\)$" % fld, str(a_))]
+            curv = [a_ for a_ in ncs if "worker->%s" % cur in str(a_) and "index_" in str(a_)]
+            if len(set(avg)) == 1 and len(set(curv)) == 1:
+                ok = nc_is_zero(v - ((nn - 1) * avg[0] + curv[0]) / nn) and str(avg[0]).replace("y(data(", "").replace("->%s))" % fld, "") in st[0]["target"]
         rep.check(ok, "R4.1", "mean|" + fld, "avg' = ((n-1) avg + cur)/n, n = frames merged so far (after ++)",
                   "MergeWorker updates %s as %s; the frame average requires ((n-1)*avg + current)/n with n the incremented frame count" % (fld, got[:300]),
                   fm.loc(st[0]["node"] if st else None), sample=True)
@@ -89,19 +94,22 @@ def run(rep, tier):
     # correlations
     fc = F.one(I + "DoCorrelations")
     rep.analysed(fc)
-    asg = [x for x in fc.walk() if x.get("k") == "opcall" and x.get("op") == "=" and show(x["args"][0]) == "M"]
-    ok, got = False, "assignment to M not found"
-    if len(asg) == 1:
-        v = Fold(fc, opaque_types=OPQ).ev(asg[0]["args"][1], {})
+    fcm = MatFold(fc, inline="internal").run()
+    cst = [e for e in fcm.events if e["kind"] == "store" and "corr_" in e["target"] and not isinstance(e["value"], (tuple, sp.Matrix))]
+    ok, got = False, "no assignment to the pair's correlation block found"
+    if len(cst) == 1:
+        v = cst[0]["value"]
+        v = fcm.devec(fcm.vecsym(v) if hasattr(v, "e") else v)
         got = str(v)
-        want = ((n - 1) * S("M") + S("a") * Fn("transpose")(S("b"))) / n
-        ok = not isinstance(v, tuple) and is_zero(v - want)
-        defs = {d["name"]: show(d["init"]) for d in fc.decls.values() if d.get("init") is not None and d["name"] in ("a", "b", "M")}
-        ok = ok and re.search(r"current_hists_\[pair\.i1_->index_\]\.data\(\)\.y\(\)$", defs.get("a", "")) is not None \
-            and re.search(r"current_hists_\[pair\.i2_->index_\]\.data\(\)\.y\(\)$", defs.get("b", "")) is not None and defs.get("M") == "pair.corr_"
-        got += " with " + str(defs)
+        ncs = [a_ for a_ in sp.preorder_traversal(v) if getattr(a_, "is_commutative", True) is False and not isinstance(a_, (sp.Mul, sp.Add, sp.Pow))]
+        M0 = [a_ for a_ in ncs if str(a_).replace(" ", "") == cst[0]["target"].replace(" ", "")]
+        ya = [a_ for a_ in ncs if str(getattr(a_, "func", "")) == "y" and "current_hists_" in str(a_) and "i1_" in str(a_)]
+        yb = [a_ for a_ in ncs if str(getattr(a_, "func", "")) == "y" and "current_hists_" in str(a_) and "i2_" in str(a_)]
+        if M0 and ya and yb:
+            tr = sp.Function("transpose", commutative=False)
+            ok = nc_is_zero(v - ((n - 1) * M0[0] + ya[0] * tr(yb[0])) / n)
     rep.check(ok, "R4.1", "mean|corr_", "M' = ((n-1) M + a b^T)/n with a, b the worker's current histograms of the pair",
-              "DoCorrelations updates the correlation block as %s" % got[:300], fc.loc(asg[0] if asg else None), sample=True)
+              "DoCorrelations updates the correlation block as %s" % got[:300], fc.loc(cst[0]["node"] if cst else None), sample=True)
     # Average<T>::Process
     ap = [f for f in F.find_rx(r"^votca::tools::Average<.*>::Process$") if f.j["template"] == "instantiation"]
     rep.floor("R4.1", len(ap), 1, "Average<T>::Process instantiations")
@@ -163,9 +171,21 @@ def run(rep, tier):
     tb = [e for e in fod.events if e["kind"] == "store" and e["target"] == "target.y()"]
     ok = len(tb) == 1 and re.sub(r"\s", "", str(tb[0]["value"])) == "y(target)/interaction->norm_"
     rep.check(ok, "R4.2", "denormalise|bonded", "bonded target x 1/norm", "CalcDeltaS bonded branch computes %s" % [str(e["value"]) for e in tb], fd.loc())
-    ds = [x_ for x_ in fd.walk() if x_.get("k") == "opcall" and x_.get("op") == "=" and show(x_["args"][0]) == "dS"]
-    ok = len(ds) == 1 and re.sub(r"\s", "", show(ds[0]["args"][1])) == "(interaction->average_.data().y()-target.y())"
-    rep.check(ok, "R4.2", "dS", "dS = averaged histogram - de-normalised target", "CalcDeltaS computes dS = %s" % (show(ds[0]["args"][1]) if ds else "?"), fd.loc(), sample=True)
+    fdm = MatFold(fd, inline="internal", record_calls=r"Table::Load$").run()
+    dsp = [p_ for p_ in fd.j["params"] if (p_.get("type") or "").strip().endswith("&") and "Eigen::Matrix<double, -1, 1" in (p_.get("type") or "") and not (p_.get("type") or "").startswith("const ")]
+    dsv = fdm.exit_env().get(dsp[0]["decl"]) if len(dsp) == 1 else None
+    ok, got = False, str(dsv)
+    if dsv is not None and hasattr(dsv, "e"):
+        dsv = fdm.vecsym(dsv)
+    dsv = fdm.devec(dsv) if dsv is not None else None
+    got = str(dsv)
+    if dsv is not None and not isinstance(dsv, (tuple, sp.Matrix)) and hasattr(dsv, "args"):
+        ncs = [a_ for a_ in sp.preorder_traversal(dsv) if str(getattr(a_, "func", "")) == "y" and getattr(a_, "is_commutative", True) is False]
+        av = [a_ for a_ in ncs if "average_" in str(a_) and "force" not in str(a_)]
+        loads = [e for e in fdm.events if e["kind"] == "call" and e["callee"].endswith("Table::Load") and ".dist.tgt" in str(e["args"][0])]
+        tg = [a_ for a_ in ncs if loads and a_.args and a_.args[0] == loads[0]["obj"]]
+        ok = len(set(av)) == 1 and len(set(tg)) == 1 and nc_is_zero(dsv - (av[0] - tg[0]))
+    rep.check(ok, "R4.2", "dS", "dS = averaged histogram - de-normalised target", "CalcDeltaS computes dS = %s" % got[:200], fd.loc(), sample=True)
 
     # ---------------------------------------------------------------- R4.3
     fi = F.one(I + "WriteIMCData")
@@ -208,9 +228,25 @@ def run(rep, tier):
                   fcl.loc(), sample=(w == "avg_vol_"))
 
     # ---------------------------------------------------------------- R4.5
-    order = [e["callee"].split("::")[-1] for e in fo.events if e["kind"] == "call" and e["callee"].split("::")[-1] in ("WriteDist", "WriteIMCData", "WriteIMCBlock", "ClearAverages")]
-    guards_ok = all(any("mod(nframes_ + 1, block_length_) == 0" in g for g in guard_strs(fo, e["guards"])) and any("block_length_ != 0" in g for g in guard_strs(fo, e["guards"]))
-                    for e in fo.events if e["kind"] == "call" and e["callee"].split("::")[-1] in ("WriteDist", "WriteIMCData", "WriteIMCBlock", "ClearAverages"))
+    blk = [e for e in fo.events if e["kind"] == "call" and e["callee"].split("::")[-1] in ("WriteDist", "WriteIMCData", "WriteIMCBlock", "ClearAverages")]
+    order = [e["callee"].split("::")[-1] for e in blk]
+
+    def blk_oracle(leaf):
+        if isinstance(leaf, tuple) and len(leaf) == 3 and leaf[0] in ("==", "!="):
+            a_, b_ = str(leaf[1]), str(leaf[2])
+            if {a_, b_} == {"block_length_", "0"}:
+                return ("BL0", leaf[0] == "==")
+            for x_, y_ in ((leaf[1], b_), (leaf[2], a_)):
+                if y_ == "0" and str(getattr(x_, "func", "")) in ("imod", "mod") and str(x_.args[1]) == "block_length_" and sp.expand(x_.args[0] - (n + 1)) == 0:
+                    return ("FULL", leaf[0] == "==")
+        return None
+    guards_ok = bool(blk)
+    for e in blk:
+        for bl0 in (True, False):
+            for full in (True, False):
+                x_ = executes(e, None, {"BL0": bl0, "FULL": full}, blk_oracle, getattr(fo, "conds", {}))
+                if x_ is None or x_ != ((not bl0) and full):
+                    guards_ok = False
     rep.check(order == ["WriteDist", "WriteIMCData", "WriteIMCBlock", "ClearAverages"] and guards_ok, "R4.5", "block-order",
               "every block_length frames: write distributions, IMC data, IMC block, then clear", "MergeWorker block output order/condition is %s (guards ok: %s)" % (order, guards_ok), fm.loc(), sample=True)
     dcor = [e for e in fo.events if e["kind"] == "call" and e["callee"].endswith("DoCorrelations")]
